@@ -34,6 +34,13 @@ def registry():
 
 
 def main(argv=None):
+    # a changed library may ask for absurd amounts of memory (a length prefix read wrongly): let that fail as MemoryError inside the
+    # call (logged like any other exception) instead of taking the machine down
+    try:
+        import resource
+        resource.setrlimit(resource.RLIMIT_AS, (24 << 30, 24 << 30))
+    except Exception:  # noqa: BLE001
+        pass
     ap = argparse.ArgumentParser()
     ap.add_argument("prop")
     ap.add_argument("--tier", default=os.environ.get("VERIF_TIER", "quick"), choices=["quick", "thorough"])
